@@ -75,7 +75,7 @@ def srp_formulas(ctx):
     rng = ctx.rng
     suite = CipherSuite.TLS_SRP_SHA_WITH_AES_128_CBC_SHA
     lines, impls, cases = [], [], []
-    n = ctx.pick(24, 120)
+    n = ctx.pick(24, 320)
     real_rand = KX.getRandomBytes
     try:
         for i in range(n):
